@@ -19,6 +19,7 @@ type Case struct {
 	Raw    *Raw    `json:"raw,omitempty"`
 	Reg    []RegOp `json:"reg,omitempty"` // registry history (C12)
 	Fcx    *FcxCase `json:"fcx,omitempty"` // unit-level flow-control explorer case
+	Par    *ParCase `json:"par,omitempty"` // parallel (free-running) flow-control case
 	Tape   []int   `json:"tape,omitempty"`
 	Free   bool    `json:"free,omitempty"` // run free (stress engine) instead of stepped
 	Note   string  `json:"note,omitempty"`
